@@ -23,6 +23,10 @@ impl log::Log for NullLogger {
         true
     }
     fn log(&self, record: &log::Record) {
+        // a log sink may itself use the crate (a DLT sink stamps its records): re-entering the pure helpers from inside
+        // a log call must be harmless
+        let ts = dlt_core::dlt::DltTimeStamp::from_ms(1_700_000_000_123);
+        std::hint::black_box(dlt_core::dlt::DltTimeStamp::from_us(ts.seconds as u64 * 1_000_000 + ts.microseconds as u64));
         if FORMAT_LOGS.with(|f| f.get()) {
             let s = format!("{}", record.args());
             std::hint::black_box(s);
